@@ -36,8 +36,8 @@ type Params struct {
 	Gates      map[string]bool // gate sites that are decision points
 	CloseAny   bool            // AsyncClose enabled at every decision point after the first submit
 	LastAfter  bool            // the last message is submitted only after the first outcome event
-	Icpt       int             // number of interceptors (counting + header-appending); last one panics if IcptPanic
-	IcptPanic  bool
+	Icpt       int             // number of interceptors (counting + header-appending)
+	IcptPanic  int             // >0: the interceptor at this (1-based) position of the chain panics after doing its work
 	Acks       sarama.RequiredAcks
 	Sync       int // 0 async producer, 1 SyncProducer.SendMessage per message, 2 one SendMessages call
 	Codec      sarama.CompressionCodec
@@ -60,7 +60,7 @@ func Parse(v url.Values) (*Params, error) {
 		Idem: atoi(v, "idem", 0) == 1, RetryMax: atoi(v, "rm", 1), NMsgs: atoi(v, "nm", 2), NParts: atoi(v, "np", 1),
 		NBrokers: atoi(v, "nb", 1), FlushMsgs: atoi(v, "fm", 0), FlushMax: atoi(v, "fx", 0), FlushFreq: time.Duration(atoi(v, "ff", 0)) * time.Millisecond,
 		Backoff: time.Duration(atoi(v, "bo", 0)) * time.Millisecond, Policy: v.Get("policy"), CloseAny: atoi(v, "closeany", 0) == 1,
-		LastAfter: atoi(v, "lastafter", 0) == 1, Icpt: atoi(v, "icpt", 0), IcptPanic: atoi(v, "icptpanic", 0) == 1,
+		LastAfter: atoi(v, "lastafter", 0) == 1, Icpt: atoi(v, "icpt", 0), IcptPanic: atoi(v, "icptpanic", 0),
 		Acks: sarama.RequiredAcks(atoi(v, "acks", 1)), Sync: atoi(v, "sync", 0),
 	}
 	if p.Policy == "" {
@@ -226,7 +226,7 @@ func run(c *gx.Ctl, p *Params) *gx.Outcome {
 		conf.Net.MaxOpenRequests = 1
 	}
 	for i := 0; i < p.Icpt; i++ {
-		conf.Producer.Interceptors = append(conf.Producer.Interceptors, &icpt{r: r, idx: i, panic: p.IcptPanic && i == 0})
+		conf.Producer.Interceptors = append(conf.Producer.Interceptors, &icpt{r: r, idx: i, panic: p.IcptPanic == i+1})
 	}
 
 	go func() {
@@ -335,6 +335,7 @@ func (r *rig) actors() []gx.Actor {
 					msg.Key = sarama.ByteEncoder(k)
 				}
 				msg.Headers = p.HeadersOf(i)
+				msg.Timestamp = p.TimestampOf(i)
 				switch p.Sync {
 				case 0:
 					r.submitCh <- msg
@@ -471,6 +472,15 @@ func (p *Params) KeyOf(i int) []byte {
 		return []byte{}
 	}
 	return []byte("key-" + strconv.Itoa(i))
+}
+
+// TimestampOf: the timestamp message i is submitted with (kv=1: two of three messages supply one, and the
+// supplied ones DEcrease with i, so that a later message of a batch is older than the batch's first).
+func (p *Params) TimestampOf(i int) time.Time {
+	if !p.KV || i%3 == 1 {
+		return time.Time{}
+	}
+	return time.Date(2020, 1, 1, 0, 0, 0, 0, time.UTC).Add(time.Duration(50-7*i) * time.Second)
 }
 
 func (p *Params) HeadersOf(i int) []sarama.RecordHeader {
